@@ -22,12 +22,15 @@ def _wrap(self, new_size, bin_map, axis=0):
     return _orig(self, new_size, bin_map, axis)
 
 
-def run_history(seed):
-    """one history with the `_reshape_data` probe installed only while it runs"""
+def run_history(seed, focus=None):
+    """one history with the `_reshape_data` probe installed only while it runs; `focus="nd_narrow"`: the history starts
+    with a narrow N-d histogram meeting wider weights / operands / factors (`history_ndn`)"""
     HistogramBase._reshape_data = _wrap
     try:
         with warnings.catch_warnings():
             warnings.simplefilter("ignore")
+            if focus == "nd_narrow":
+                return history_ndn(random.Random(seed))
             return history(random.Random(seed))
     finally:
         HistogramBase._reshape_data = _orig
@@ -69,6 +72,94 @@ def mk2(rng):
         x = Histogram2D(bins, np.ones((2, 3), dtype=arr), **kw)
     return x, f"construct {nm(arr) if arr else 'none'} {nm(d) if d else 'none'} 0"
 
+def wider(rng, d):
+    """a supported dtype of the same kind as `d` that is strictly wider (the widest one: itself)"""
+    same = [t for t in DT if np.dtype(t).kind == np.dtype(d).kind and np.promote_types(d, t) != np.dtype(d)]
+    return rng.choice(same) if same else np.dtype(d).type
+
+def mkn(rng, klass, nd, d, arr=None):
+    """an N-d histogram of class `klass` with content type `d` (contents: ones of type `arr`) on the grid [0, 1, 2]^nd --
+    a Histogram2D on the grid of `mk2`, so that the general operations can go on with it"""
+    bins = [StaticBinning([0, 1, 2]) for _ in range(nd)]
+    if klass is Histogram2D:
+        bins[1] = StaticBinning([0, 1, 2, 3])
+    if arr is None:
+        return klass(bins, dtype=d), f"construct none {nm(d)} 0"
+    return klass(bins, np.ones(tuple(b.bin_count for b in bins), dtype=arr), dtype=d), f"construct {nm(arr)} {nm(d)} 0"
+
+def history_ndn(rng):
+    """N-d histograms (Histogram2D, HistogramND in 3-d, PolarHistogram, CylindricalHistogram) created with a NARROW content
+    type, then 1-4 operations whose operand is mostly of a WIDER type of the same kind: fill_n(weights = array / list),
+    fill(weight = numpy / python scalar), += / + of a histogram, *= / * by a scalar, and now and then the explicit change
+    back to the narrow type; a 2-d history then goes on with the general operations of `history`."""
+    from physt.special_histograms import PolarHistogram, CylindricalHistogram
+    klass, nd = rng.choice([(Histogram2D, 2), (Histogram2D, 2), (HistogramND, 3), (PolarHistogram, 2), (CylindricalHistogram, 3)])
+    kw = {"transformed": True} if klass in (PolarHistogram, CylindricalHistogram) else {}
+    d0 = rng.choice([np.int16, np.int16, np.int32, np.int32, np.float16, np.float32, np.float32, np.float64])
+    x, line = mkn(rng, klass, nd, d0, arr=rng.choice([None, None, d0]))
+    out = [(line, st(x))]
+    for _ in range(rng.randint(1, 4)):
+        op = rng.choice(["fill_n", "fill_n", "fill_n", "fill", "add", "add", "mul", "set_dtype"])
+        before, line, CK = st(x), None, [None]
+        cur = x.dtype
+        wd = wider(rng, cur) if rng.random() < 0.8 else rng.choice(DT)
+        try:
+            if op == "fill_n":
+                if wd is np.longdouble and rng.random() < 0.7:
+                    wd = np.float64          # (numpy.histogramdd refuses longdouble weights: mostly something it accepts)
+                CK[0] = nm(wd)
+                vs = [[0.5] * nd, [1.5] * nd, [0.5] * (nd - 1) + [rng.choice([1.5, 9.0])]]
+                ws = np.arange(1, 4).astype(wd)
+                if nm(wd) in ("int64", "float64") and rng.random() < 0.4:
+                    ws = [1, 2, 3] if nm(wd) == "int64" else [1.0, 2.0, 3.0]
+                x.fill_n(vs, weights=ws, **kw)
+                line = f"fill_n {nm(wd)} 0 1 0"
+            elif op == "fill":
+                w, wn = np.dtype(wd).type(2), "np:" + nm(wd)
+                if nm(wd) in ("int64", "float64") and rng.random() < 0.4:
+                    w, wn = (2, "py:int") if nm(wd) == "int64" else (0.5, "py:float")
+                x.fill([0.5] * (nd - 1) + [rng.choice([0.5, 9.0])], weight=w, **kw)
+                line = f"fill {wn} 0 0"
+            elif op == "add":
+                o, _ = mkn(rng, klass, nd, wd, arr=rng.choice([None, wd, wd]))
+                if rng.random() < 0.5:
+                    w, _ = scalar(rng); o.fill([0.5] * nd, weight=w, **kw)
+                os_ = st(o)
+                CK[0] = os_.split()[0]
+                if rng.random() < 0.6: x += o
+                else: x = x + o
+                line = f"add {os_} 0"
+            elif op == "mul":
+                c, cn = np.dtype(wd).type(2), "np:" + nm(wd)
+                if nm(wd) in ("int64", "float64") and rng.random() < 0.4:
+                    c, cn = (3, "py:int") if nm(wd) == "int64" else (1.5, "py:float")
+                how = rng.choice(["i", "i", "l", "r"])
+                if how == "i": x *= c
+                elif how == "l": x = x * c
+                else: x = c * x
+                line = f"mul {cn}"
+            else:
+                try:
+                    if rng.random() < 0.5: x.dtype = d0
+                    else: x.set_dtype(d0)
+                    line = f"set_dtype {nm(d0)} 1"
+                except ValueError:
+                    line = f"set_dtype {nm(d0)} 0"
+        except Exception as e:
+            after = st(x)
+            out.append((f"# {op} raised {type(e).__name__}: {str(e)[:80]} | before {before} | after {after}", None))
+            if after != before:
+                if CK[0] is None:
+                    out.append(("# STATE CHANGED BY A REFUSED OPERATION (not replayed)", None))
+                    return out
+                out.append((f"refused_after_coerce {CK[0]}", after))
+            continue
+        if line is not None:
+            out.append((line, st(x)))
+    if klass is Histogram2D and rng.random() < 0.5:
+        out += ops_loop(rng, x, rng.randint(1, 3))
+    return out
+
 def history(rng):
     kind = rng.choice(["1d", "1d", "1da", "2d"])
     out = []
@@ -77,7 +168,12 @@ def history(rng):
     else:
         x, line = mk1(rng, adaptive=(kind == "1da"))
     out.append((line, st(x)))
-    for _ in range(rng.randint(1, 7)):
+    return out + ops_loop(rng, x, rng.randint(1, 7))
+
+def ops_loop(rng, x, n):
+    """`n` general operations on `x` (1-D, or 2-D on the grid of `mk2`): the lines and the states after them"""
+    out = []
+    for _ in range(n):
         ops = ["fill", "fill_n", "add", "sub", "mul", "div", "normalize", "merge", "set_dtype", "copy", "negmul"]
         if x.ndim == 1: ops += ["select1d"]
         if x.ndim == 2: ops += ["projection", "select_nd_int", "select_nd_slice", "accumulate", "partial_normalize", "transpose"]
